@@ -381,6 +381,34 @@ def writer_reuse_across_configs(ctx, b, d):
                 cases.append({"id": len(cases) + 1, "kind": "writer", "lives": True, "input": {"family": "bytes", "len": len(data), "seed": 0, "bytes": data},
                               "opts": dict(base, code=ca, legacy=True, conc=conc), "calls": calls, "seed": 1, "perturb": 0, "poison": False,
                               "ref": refs[(conc, False, ca)], "from": "legacy/%d" % ca, "to": "frame/%d (legacy switched off only)" % ca})
+    # ... and the other options withdrawn or set again: content size, block checksum, content checksum
+    toggles = {"size": (200, 201), "bcs": (210, 211), "ccs": (220, 221)}
+    for conc in (1, 4):
+        for a_on in (False, True):
+            for which in ("size", "bcs", "ccs", "all"):
+                names = list(toggles) if which == "all" else [which]
+                oa = dict(base, code=4, legacy=False, conc=conc, bcs=a_on, ccs=a_on)
+                if a_on:
+                    oa["size"] = 77
+                ob = dict(oa)
+                for nm in names:
+                    if nm == "size":
+                        if a_on:
+                            ob.pop("size", None)
+                        else:
+                            ob["size"] = 77
+                    else:
+                        ob[nm] = not a_on
+                rid = len(cases) + 1
+                cases.append({"id": rid, "kind": "writer", "lives": True, "input": {"family": "bytes", "len": len(second), "seed": 0, "bytes": second},
+                              "opts": ob, "calls": [{"op": "write", "n": len(second)}, {"op": "close"}], "seed": 1, "perturb": 0, "poison": False})
+                re = [{"op": "apply", "n": toggles[nm][0 if a_on else 1]} for nm in names]
+                for closed in (True, False):
+                    calls = [{"op": "write", "n": len(first)}] + ([{"op": "close"}] if closed else []) + [{"op": "reset"}] + re + \
+                        [{"op": "write", "n": len(second)}, {"op": "close"}]
+                    cases.append({"id": len(cases) + 1, "kind": "writer", "lives": True, "input": {"family": "bytes", "len": len(first) + len(second), "seed": 0, "bytes": first + second},
+                                  "opts": oa, "calls": calls, "seed": 1, "perturb": 0, "poison": False, "ref": rid,
+                                  "from": "%s on" % which if a_on else "%s off" % which, "to": "%s toggled%s" % (which, "" if closed else " (Reset without Close)")})
     recs, faults = fl.shard_run(b, "pipe-run", cases, d, "wreuse", extra=("--watchdog", "30s"))
     if faults:
         raise vlib.MachineryFault("pipe-run failed: %s" % faults[0]["stderr"][-600:])
